@@ -19,7 +19,8 @@ from .choices import Choices, derive_seed
 from .errors import HarnessError, HarnessTimeout
 
 VERIF = os.path.dirname(os.path.dirname(os.path.abspath(__file__)))
-RUN_TIMEOUT = int(os.environ.get("VERIF_RUN_TIMEOUT", "150"))
+RUN_TIMEOUT = int(os.environ.get("VERIF_RUN_TIMEOUT", "300"))
+ISOLATE = os.environ.get("VERIF_ISOLATE", "1") != "0"
 
 
 # --------------------------------------------------------------------------
@@ -136,30 +137,191 @@ def execute(mod, ch: Choices) -> dict:
     return out
 
 
+def execute_many_isolated(mod, specs, deadline=None) -> list:
+    """Run the given choice streams (each `Choices` or a recorded value list) in ONE forked child of this -- pristine, warmed-up --
+    process and return their outcomes.  Every simulated run (or, for checks with `ISOLATE_PER_RUN = False`, every small chunk of
+    runs) therefore starts from the same process state: nothing a run leaves behind in module-level caches, memoised functions,
+    numba specialisations or library globals reaches another run, so a violation is a function of its own choice list.  The parent
+    kills a child that does not answer within the run timeout (a hang inside native code or a real lock cannot be interrupted
+    from inside)."""
+    import pickle
+    import select
+
+    if not ISOLATE:
+        return [execute(mod, c if isinstance(c, Choices) else Choices(recorded=c)) for c in specs]
+    r, w = os.pipe()
+    pid = os.fork()
+    if pid == 0:
+        code = 0
+        try:
+            os.close(r)
+            outs = []
+            for c in specs:
+                if deadline is not None and time.time() > deadline:
+                    break
+                outs.append(execute(mod, c if isinstance(c, Choices) else Choices(recorded=c)))
+            data = pickle.dumps(outs, protocol=pickle.HIGHEST_PROTOCOL)
+            with os.fdopen(w, "wb") as f:
+                f.write(data)
+        except BaseException:  # noqa: BLE001
+            traceback.print_exc()
+            code = 3
+        finally:
+            os._exit(code)
+    os.close(w)
+    chunks = []
+    limit = time.time() + RUN_TIMEOUT * len(specs) + 30
+    timed_out = False
+    with os.fdopen(r, "rb") as f:
+        while True:
+            left = limit - time.time()
+            if left <= 0:
+                timed_out = True
+                break
+            ready, _, _ = select.select([f], [], [], min(left, 5.0))
+            if not ready:
+                continue
+            b = os.read(f.fileno(), 1 << 20)
+            if not b:
+                break
+            chunks.append(b)
+    if timed_out:
+        try:
+            os.kill(pid, signal.SIGKILL)
+        except OSError:
+            pass
+    _, status = os.waitpid(pid, 0)
+    outs = []
+    if chunks and not timed_out:
+        try:
+            outs = pickle.loads(b"".join(chunks))
+        except Exception:  # noqa: BLE001
+            outs = []
+    if len(outs) < len(specs) and (timed_out or status != 0 or not outs):
+        why = (f"HarnessTimeout: isolated child exceeded {RUN_TIMEOUT}s wall per run and was killed" if timed_out
+               else f"HarnessError: isolated child exited with status {status} without a result")
+        c = specs[len(outs)]
+        ch = c if isinstance(c, Choices) else Choices(recorded=c)
+        o = Run(ch).outcome()
+        o["error"] = why
+        o["choices"] = ch.values()
+        outs.append(o)
+    return outs
+
+
+def execute_isolated(mod, spec) -> dict:
+    return execute_many_isolated(mod, [spec])[0]
+
+
 def _vkey(v):
     return (v["clause"], json.dumps(v["signature"], sort_keys=True))
 
 
 # -------- worker side --------------------------------------------------------
-_MOD = None
+def _send(fd, obj):
+    import pickle
+    import struct
+
+    data = pickle.dumps(obj, protocol=pickle.HIGHEST_PROTOCOL)
+    os.write(fd, struct.pack("<Q", len(data)))
+    view = memoryview(data)
+    while view:
+        n = os.write(fd, view[:1 << 16])
+        view = view[n:]
 
 
-def _worker(prop, batch_seed, indices, deadline):
-    global _MOD
+def _session_child(mod, prop, batch_seed, indices, deadline, wfd):
+    """one long-lived simulated *process*: executes its runs (sessions) in the fixed order `indices`, streaming each outcome to
+    the parent.  Which runs share a process, and in which order, is a function of (batch seed, worker count) only."""
     faulthandler.enable()
-    if _MOD is None:
-        _MOD = load_check(prop)
-    outs = []
-    for i in indices:
-        if time.time() > deadline:
-            break
-        seed = derive_seed(batch_seed, prop, i)
-        o = execute(_MOD, Choices(seed))
-        o["index"], o["seed"] = i, seed
-        if not o["violations"] and not o["error"]:
-            o.pop("choices")
-        outs.append(o)
-    return outs
+    code = 0
+    try:
+        for i in indices:
+            if time.time() > deadline:
+                break
+            seed = derive_seed(batch_seed, prop, i)
+            o = execute(mod, Choices(seed))
+            o["index"], o["seed"] = i, seed
+            if not o["violations"] and not o["error"]:
+                o.pop("choices", None)
+            _send(wfd, ("run", o))
+        _send(wfd, ("done", None))
+    except BaseException:  # noqa: BLE001
+        traceback.print_exc()
+        code = 3
+    finally:
+        os._exit(code)
+
+
+def run_sessions(mod, prop, batch_seed, n_runs, nproc, deadline):
+    """fork `nproc` session processes; process k executes runs k, k + nproc, k + 2 nproc ... sequentially.  Returns (outcomes,
+    harness_errors).  A process that produces nothing for longer than the run timeout is killed (a hang inside native code or on
+    a real lock cannot be interrupted from inside); the runs it had left are reported as lost."""
+    import pickle
+    import select
+    import struct
+
+    procs = {}
+    for k in range(nproc):
+        idx = list(range(k, n_runs, nproc))
+        if not idx:
+            continue
+        r, w = os.pipe()
+        pid = os.fork()
+        if pid == 0:
+            os.close(r)
+            for other in procs.values():
+                try:
+                    os.close(other["fd"])
+                except OSError:
+                    pass
+            _session_child(mod, prop, batch_seed, idx, deadline, w)
+        os.close(w)
+        procs[r] = {"fd": r, "pid": pid, "k": k, "buf": bytearray(), "last": time.time(), "done": False, "n": 0, "indices": idx}
+    outs, errors = [], []
+    live = dict(procs)
+    while live:
+        ready, _, _ = select.select(list(live), [], [], 5.0)
+        now = time.time()
+        for fd in ready:
+            p = live[fd]
+            b = os.read(fd, 1 << 20)
+            if not b:
+                os.close(fd)
+                _, status = os.waitpid(p["pid"], 0)
+                if not p["done"]:
+                    nxt = p["indices"][p["n"]] if p["n"] < len(p["indices"]) else None
+                    errors.append(f"session process {p['k']} ended with status {status} before finishing (next run index {nxt})")
+                del live[fd]
+                continue
+            p["buf"] += b
+            p["last"] = now
+            while len(p["buf"]) >= 8:
+                (ln,) = struct.unpack("<Q", bytes(p["buf"][:8]))
+                if len(p["buf"]) < 8 + ln:
+                    break
+                kind, obj = pickle.loads(bytes(p["buf"][8:8 + ln]))
+                del p["buf"][:8 + ln]
+                if kind == "run":
+                    outs.append(obj)
+                    p["n"] += 1
+                else:
+                    p["done"] = True
+        for fd, p in list(live.items()):
+            if not p["done"] and now - p["last"] > RUN_TIMEOUT + 60:
+                nxt = p["indices"][p["n"]] if p["n"] < len(p["indices"]) else None
+                errors.append(f"HarnessTimeout: session process {p['k']} silent for {RUN_TIMEOUT + 60}s in run index {nxt}; killed")
+                try:
+                    os.kill(p["pid"], signal.SIGKILL)
+                except OSError:
+                    pass
+                p["done"] = True  # EOF follows
+    return outs, errors
+
+
+def history_of(index, nproc):
+    """indices of the runs executed before `index` in the same session process"""
+    return list(range(index % nproc, index, nproc))
 
 
 # -------- parent side ----------------------------------------------------------
@@ -180,16 +342,29 @@ def match_known(prop, v, findings):
     return None
 
 
-def shrink(mod, values, target_key, budget_runs=250, budget_s=150):
+def run_after_history(mod, history, values) -> dict:
+    """outcome of the run `values` executed in a fresh process after the runs in `history` (value lists) -- earlier sessions of
+    the same simulated process, whose left-over state (module-level caches, memoised functions) the run may depend on"""
+    outs = execute_many_isolated(mod, list(history) + [values])
+    if len(outs) < len(history) + 1:
+        o = dict(outs[-1])
+        o["violations"] = []
+        return o
+    return outs[-1]
+
+
+def shrink(mod, values, target_key, budget_runs=250, budget_s=150, history=()):
     """minimise the choice list while the same (clause, signature) still fails"""
     t0 = time.time()
     runs = 0
     best = list(values)
+    if history:
+        budget_runs = min(budget_runs, 80)
 
     def fails(cand):
         nonlocal runs
         runs += 1
-        o = execute(mod, Choices(recorded=cand))
+        o = run_after_history(mod, history, cand)
         if o["error"] or o.get("probe_run"):
             return False
         return any(_vkey(v) == target_key for v in o["violations"])
@@ -242,7 +417,7 @@ def _repo_commit():
         return None
 
 
-def write_replay(prop, seed, values, out, v, tag=""):
+def write_replay(prop, seed, values, out, v, tag="", history=None):
     d = os.environ.get("VERIF_REPLAY_DIR") or os.path.join(VERIF, "replays")
     os.makedirs(d, exist_ok=True)
     key = hashlib.sha1(repr(_vkey(v)).encode()).hexdigest()[:8]
@@ -257,6 +432,9 @@ def write_replay(prop, seed, values, out, v, tag=""):
         "faults": out["scenario"].get("faults_fired", []) if isinstance(out["scenario"], dict) else [],
         "abtem_commit": _repo_commit(),
     }
+    if history:
+        # sessions executed earlier in the same process; the violation needs the state they leave behind
+        doc["history"] = history
     with open(path, "w") as f:
         json.dump(doc, f, indent=1, default=str)
     return path
@@ -267,6 +445,8 @@ def replay_file(prop, path, quiet=False):
     if hasattr(mod, "warmup"):
         mod.warmup()
     doc = json.load(open(path))
+    for h in doc.get("history", []):
+        execute(mod, Choices(recorded=h["choices"]))
     out = execute(mod, Choices(recorded=doc["choices"]))
     want = (doc["clause"], json.dumps(doc["signature"], sort_keys=True))
     same = any(_vkey(v) == want for v in out["violations"])
@@ -304,21 +484,9 @@ def run_batch(prop: str, tier: str, seed: int, nproc: int | None = None) -> int:
     deadline = time.time() + wall
     outs: list[dict] = []
     harness_errors: list[str] = []
-    chunk = max(1, min(8, n_runs // (nproc * 4) or 1))
-    idx_chunks = [list(range(i, min(i + chunk, n_runs))) for i in range(0, n_runs, chunk)]
-    if nproc == 1:
-        for c in idx_chunks:
-            outs.extend(_worker(prop, seed, c, deadline))
-    else:
-        global _MOD
-        _MOD = mod
-        with ProcessPoolExecutor(nproc, mp_context=mp.get_context("fork")) as ex:
-            futs = [ex.submit(_worker, prop, seed, c, deadline) for c in idx_chunks]
-            for f in as_completed(futs):
-                try:
-                    outs.extend(f.result(timeout=wall + 5 * RUN_TIMEOUT))
-                except Exception as e:  # noqa: BLE001
-                    harness_errors.append(f"worker failed: {type(e).__name__}: {e}")
+    nproc = max(1, min(nproc, n_runs))
+    outs, worker_errors = run_sessions(mod, prop, seed, n_runs, nproc, deadline)
+    harness_errors.extend(worker_errors)
     outs.sort(key=lambda o: o["index"])
     for o in outs:
         if o["error"]:
@@ -353,14 +521,37 @@ def run_batch(prop: str, tier: str, seed: int, nproc: int | None = None) -> int:
             continue
         reported += 1
         values = [c[2] for c in o["choices"]]
-        conf = execute(mod, Choices(recorded=values))
+        conf = execute_isolated(mod, values)
+        history, history_meta = [], None
         if not any(_vkey(x) == key for x in conf["violations"]):
-            harness_errors.append(f"violation of run {o['index']} did not reproduce in-process: {v}")
-            continue
-        small, nshrink = shrink(mod, values, key)
-        final = execute(mod, Choices(recorded=small))
+            # not a function of its own choices: does it depend on what earlier sessions of the same process left behind?
+            hist_idx = history_of(o["index"], nproc)
+            hist_specs = [Choices(derive_seed(seed, prop, j)) for j in hist_idx]
+            full = execute_many_isolated(mod, hist_specs + [values]) if hist_idx else []
+            if len(full) != len(hist_idx) + 1 or not any(_vkey(x) == key for x in full[-1]["violations"]):
+                harness_errors.append(f"violation of run {o['index']} did not reproduce in a fresh process, alone or after the "
+                                      f"{len(hist_idx)} earlier runs of its session process: {v}")
+                continue
+            hist_vals = [[c[2] for c in h["choices"]] for h in full[:-1]]
+            # shortest suffix of the history, then drop single sessions
+            keep = list(range(len(hist_vals)))
+            n = 1
+            while n < len(keep):
+                cand = keep[-n:]
+                if any(_vkey(x) == key for x in run_after_history(mod, [hist_vals[j] for j in cand], values)["violations"]):
+                    keep = cand
+                    break
+                n *= 2
+            for j in list(keep)[:-1] if len(keep) <= 12 else []:
+                cand = [x for x in keep if x != j]
+                if any(_vkey(x) == key for x in run_after_history(mod, [hist_vals[q] for q in cand], values)["violations"]):
+                    keep = cand
+            history = [hist_vals[j] for j in keep]
+            history_meta = [{"index": hist_idx[j], "seed": derive_seed(seed, prop, hist_idx[j]), "choices": hist_vals[j]} for j in keep]
+        small, nshrink = shrink(mod, values, key, history=history)
+        final = run_after_history(mod, history, small)
         fv = next(x for x in final["violations"] if _vkey(x) == key)
-        path = write_replay(prop, o["seed"], small, final, fv)
+        path = write_replay(prop, o["seed"], small, final, fv, history=history_meta)
         fr = fresh_replay(prop, path)
         if not fr.get("reproduced"):
             harness_errors.append(f"replay {path} did not reproduce in a fresh interpreter: {fr.get('error')}")
